@@ -35,17 +35,16 @@ MARKER = ".bzr-upload.revid"
 PHASES = ["Removed", "RenameToTemp", "FinishRenames", "FinishDeletions", "KindChanged", "Added", "Modified"]
 
 
+TARGETS = {"s1": "x1", "s2": "../b", "s2-rewritten": "b"}     # see the header of Upload.tla
+
+
 def target_of(path, tok):
-    """Concrete symlink target of a token: see the header of Upload.tla."""
-    if len(path) == 1:
-        others = [n for n in ("a", "b", "d") if n != path[0]]
-        return {"s1": others[0], "s2": others[1]}.get(tok)
-    return {"s1": "x", "s2": "../b", "s2-rewritten": "b"}.get(tok)
+    return TARGETS.get(tok)
 
 
 def tok_of_target(path, target):
-    for tok in ("s1", "s2", "s2-rewritten"):
-        if target_of(path, tok) == target:
+    for tok, t in TARGETS.items():
+        if t == target:
             return tok
     return "raw:" + target
 
@@ -189,6 +188,10 @@ class World:
         snaps, stamps, me = {}, [], self
 
         class Recorder(ORIG):
+            def upload_file(self, old, new, mode=None):
+                snaps.setdefault("Removed", me.remote_proj(stamps))      # the removals never upload anything
+                ORIG.upload_file(self, old, new, mode)
+
             def rename_remote(self, old, new):
                 snaps.setdefault("Removed", me.remote_proj(stamps))
                 ORIG.rename_remote(self, old, new)
@@ -286,11 +289,12 @@ def change_class(frm, to, path):
     elif o["path"] != e["path"]:
         flags.append("moved-with-parent")
     if o["kind"] != e["kind"]:
-        flags.append("kind(%s>%s)" % (o["kind"], e["kind"]))
-    elif o["val"] != e["val"]:
-        flags.append("retarget" if e["kind"] == "symlink" else "content")
-    if o["exec"] != e["exec"]:
-        flags.append("chmod")
+        flags.append("kind-change")
+    else:
+        if o["val"] != e["val"]:
+            flags.append("retarget" if e["kind"] == "symlink" else "content")
+        if o["exec"] != e["exec"]:
+            flags.append("chmod")
     return ("+".join(flags) or "unchanged") + "(%s)" % kind
 
 
@@ -467,11 +471,16 @@ def run(ctx):
                 picked.append(groups[k].pop())
     ctx.cov["upload_classes"] = len(keys)
     jobs = []
+    nmem = 0
     for n, p in enumerate(picked):
         nd = {nid: to_py(parse_state(nodes[nid])) for _, nid in p}
         jobs.append((False, p, nd))
-        if n % 4 == 0 and "symlink" not in "".join(nodes[nid] for _, nid in p):
-            jobs.append((True, p, nd))
+        # a MemoryTransport has other rename rules (and no symlinks): behaviours whose uploads the model calls safe must
+        # come out right on it too; nothing else is claimed there
+        if "symlink" not in "".join(nodes[nid] for _, nid in p) and all(st["unsafe"] == [] for st in nd.values()):
+            nmem += 1
+            if nmem % 2 == 0:
+                jobs.append((True, p, nd))
     nsim = 0
     if thorough:
         # deeper: random behaviours of the unpruned model with one more commit, generated by TLC's simulator
@@ -485,7 +494,7 @@ def run(ctx):
     ctx.rule("behaviours = paths of a transition cover of TLC's state graph of Upload.tla (initial commit + <= 2 one-edit commits / "
              "uncommits, uploads incremental / full / --overwrite anywhere, possibly skipping commits): %d cover paths in %d "
              "classes by the model's (mode, unsafe reasons, outcome, error) of their last upload; replayed on a local "
-             "directory: %d (classes round-robin%s), every 4th symlink-free one also on a MemoryTransport%s; non-trivial = upload "
+             "directory: %d (classes round-robin%s), every 2nd symlink-free, model-safe one also on a MemoryTransport%s; non-trivial = upload "
              "whose delta the model calls safe; distinct = (transport, uploaded tree, tip tree, mode)"
              % (len(paths), len(keys), len(picked), "" if ctx.quick else " = all",
                 "; plus %d simulated behaviours with one more commit" % nsim if nsim else ""))
@@ -499,6 +508,8 @@ def run(ctx):
         r = rows[jr["k"]]
         meta = r["meta"]
         tag = "" if meta["predicted_same"] else ":unpredicted"
+        if meta["rep"]["transport"] == "memory":
+            tag = ":memory"
         if "completes" in failed:
             name, phase, msg = meta["exc"]
             ctx.violation("upload-raises:%s:%s:%s%s" % (meta["mode"], phase, name, tag),
@@ -506,9 +517,9 @@ def run(ctx):
                               meta["mode"], name, msg, phase, meta["rep"]["model_unsafe"]), meta["rep"])
         elif "equal" in failed:
             d = differs(r["tree"], r["remote"])
-            classes = sorted({change_class(meta["frm"], meta["to"], list(p)) + ":" + what for p, what in d.items()})
-            ctx.violation("remote-differs:%s:%s%s" % (meta["mode"], ",".join(classes), tag),
-                          "after a successful %s upload the remote directory differs from the tree at %s; the model's reasons: %s" % (
-                              meta["mode"], {"/".join(p): v for p, v in d.items()}, meta["rep"]["model_unsafe"]), meta["rep"])
+            for cl in sorted({change_class(meta["frm"], meta["to"], list(p)) + ":" + what for p, what in d.items()}):
+                ctx.violation("remote-differs:%s:%s%s" % (meta["mode"], cl, tag),
+                              "after a successful %s upload the remote directory differs from the tree at %s; the model's reasons: %s" % (
+                                  meta["mode"], {"/".join(p): v for p, v in d.items()}, meta["rep"]["model_unsafe"]), meta["rep"])
         if drift:
             ctx.drift("a refused upload changed the remote directory", meta["rep"])
